@@ -25,6 +25,9 @@ pub fn arg_ty(shape: i64, l: i64) -> String {
         9 => "Pod".to_string(),
         10 => format!("&{}", t),
         11 => format!("CIterator<{}>", t),
+        12 => format!("Result<{}, u8>", t),
+        13 => format!("std::result::Result<{}, u8>", t),          // the same shapes written with a module path
+        14 => format!("std::option::Option<{}>", t),
         _ => t.to_string(),
     }
 }
@@ -45,6 +48,8 @@ pub fn ret_ty(shape: i64, l: i64) -> String {
         10 => format!(" -> &{}", t),
         11 => format!(" -> Result<{}, u8>", t),
         12 => format!(" -> Result<{}, std::io::Error>", t),
+        13 => format!(" -> std::result::Result<{}, u8>", t),
+        14 => format!(" -> std::option::Option<{}>", t),
         _ => format!(" -> {}", t),
     }
 }
